@@ -38,62 +38,6 @@ def trap(ins, fmap, trapname):
 
 
 @__npc
-def i_LB(ins, fmap):
-    dst, src = ins.operands
-    if dst is not zero:
-        fmap[dst] = fmap(src).signextend(64)
-
-
-@__npc
-def i_LBU(ins, fmap):
-    dst, src = ins.operands
-    if dst is not zero:
-        fmap[dst] = fmap(src).zeroextend(64)
-
-
-@__npc
-def i_LH(ins, fmap):
-    dst, src = ins.operands
-    if dst is not zero:
-        fmap[dst] = fmap(src).signextend(64)
-
-
-@__npc
-def i_LHU(ins, fmap):
-    dst, src = ins.operands
-    if dst is not zero:
-        fmap[dst] = fmap(src).zeroextend(64)
-
-
-@__npc
-def i_LW(ins, fmap):
-    dst, src = ins.operands
-    if dst is not zero:
-        fmap[dst] = fmap(src)
-
-
-@__npc
-def i_SB(ins, fmap):
-    dst, src = ins.operands
-    if dst.a.base is not zero:
-        fmap[dst] = fmap(src[0:8])
-
-
-@__npc
-def i_SH(ins, fmap):
-    dst, src = ins.operands
-    if dst.a.base is not zero:
-        fmap[dst] = fmap(src[0:16])
-
-
-@__npc
-def i_SW(ins, fmap):
-    dst, src = ins.operands
-    if dst.a.base is not zero:
-        fmap[dst] = fmap(src)
-
-
-@__npc
 def i_ADD(ins, fmap):
     dst, src1, src2 = ins.operands
     if dst is not zero:
@@ -160,8 +104,9 @@ def i_XORI(ins, fmap):
 def i_SLT(ins, fmap):
     dst, rs1, rs2 = ins.operands
     if dst is not zero:
-        _t = rs1 < rs2
-        fmap[dst] = fmap(tst(_t, cst(1, 64), cst(0, 64)))
+        # signed comparison of the values:
+        _t = fmap(rs1).signed() < fmap(rs2).signed()
+        fmap[dst] = tst(_t, cst(1, 64), cst(0, 64)).simplify()
 
 
 @__npc
@@ -176,8 +121,9 @@ def i_SLTU(ins, fmap):
 def i_SLTI(ins, fmap):
     dst, rs1, rs2 = ins.operands
     if dst is not zero:
-        _t = rs1 < rs2
-        fmap[dst] = fmap(tst(_t, cst(1, 64), cst(0, 64)))
+        # signed comparison of the values:
+        _t = fmap(rs1).signed() < fmap(rs2).signed()
+        fmap[dst] = tst(_t, cst(1, 64), cst(0, 64)).simplify()
 
 
 @__npc
@@ -250,7 +196,8 @@ def i_LUI(ins, fmap):
 def i_AUIPC(ins, fmap):
     dst, src1 = ins.operands
     if dst is not zero:
-        fmap[dst] = fmap(pc + src1)
+        # pc has been advanced already: the offset is relative to the address of this instruction
+        fmap[dst] = fmap(pc - ins.length + src1)
 
 
 def i_JAL(ins, fmap):
@@ -262,9 +209,11 @@ def i_JAL(ins, fmap):
 
 def i_JALR(ins, fmap):
     dst, src1, imm = ins.operands
+    # the target (least-significant bit cleared) is computed before the link register is written: rd may be rs1
+    target = fmap((src1 + imm) & ~1)
     if dst is not zero:
         fmap[dst] = fmap(pc + ins.length)
-    fmap[pc] = fmap(src1 + imm)
+    fmap[pc] = target
 
 
 def i_BEQ(ins, fmap):
@@ -279,7 +228,8 @@ def i_BNE(ins, fmap):
 
 def i_BLT(ins, fmap):
     r1, r2, imm = ins.operands
-    fmap[pc] = fmap(tst(r1 < r2, pc + imm, pc + ins.length))
+    _t = fmap(r1).signed() < fmap(r2).signed()
+    fmap[pc] = tst(_t, fmap(pc + imm), fmap(pc + ins.length)).simplify()
 
 
 def i_BLTU(ins, fmap):
@@ -289,7 +239,8 @@ def i_BLTU(ins, fmap):
 
 def i_BGE(ins, fmap):
     r1, r2, imm = ins.operands
-    fmap[pc] = fmap(tst(r1 >= r2, pc + imm, pc + ins.length))
+    _t = fmap(r1).signed() >= fmap(r2).signed()
+    fmap[pc] = tst(_t, fmap(pc + imm), fmap(pc + ins.length)).simplify()
 
 
 def i_BGEU(ins, fmap):
@@ -318,7 +269,8 @@ def i_SW(ins, fmap):
 @__npc
 def i_LB(ins, fmap):
     dst, src = ins.operands
-    fmap[dst] = fmap(src).signextend(64)
+    if dst is not zero:
+        fmap[dst] = fmap(src).signextend(64)
 
 
 i_LH = i_LW = i_LB
@@ -327,7 +279,8 @@ i_LH = i_LW = i_LB
 @__npc
 def i_LBU(ins, fmap):
     dst, src = ins.operands
-    fmap[dst] = fmap(src).zeroextend(64)
+    if dst is not zero:
+        fmap[dst] = fmap(src).zeroextend(64)
 
 
 i_LHU = i_LBU
@@ -345,4 +298,9 @@ def i_FENCE_I(ins, fmap):
 
 @__npc
 def i_ECALL(ins, fmap):
+    pass
+
+
+@__npc
+def i_EBREAK(ins, fmap):
     pass
